@@ -38,6 +38,7 @@ static vrt_projector_t g_proj;
 static _Atomic int g_ntid;
 static _Atomic uint64_t g_progress;
 static int g_hang_s = 60;
+static int g_max_s = 0;   /* optional cap on the total run time (0 = none) */
 static int g_probe_filter = 1;
 static vrt_steer_t g_steer;
 static _Atomic int g_dumped;
@@ -83,6 +84,7 @@ uint64_t vrt_rand(void)
 uint64_t vrt_seq(void) { return g_seq; }
 void vrt_progress(void) { atomic_fetch_add(&g_progress, 1); }
 void vrt_set_hang_seconds(int s) { g_hang_s = s; }
+void vrt_set_max_seconds(int s) { g_max_s = s; }
 void vrt_pause(int on) { atomic_store(&g_paused, on); }
 void vrt_set_perturb(int level) { atomic_store(&g_perturb, level); }
 void vrt_set_projector(vrt_projector_t fn) { g_proj = fn; }
@@ -327,13 +329,28 @@ static void on_signal(int sig)
 	_exit(70);
 }
 
+static void on_term(int sig)
+{
+	(void)sig;
+	_dispatch_verif_pre = NULL; _dispatch_verif_post = NULL; _dispatch_verif_probe = NULL;
+	dump_with("Hang", -1);
+	fprintf(stderr, "VRT: terminated by an outer timeout (livelock or extreme slowness)\n");
+	_exit(71);
+}
+
 static void *watchdog(void *arg)
 {
 	(void)arg;
 	uint64_t last = atomic_load(&g_progress);
-	int idle = 0;
+	int idle = 0, total = 0;
 	for (;;) {
 		sleep(1);
+		if (g_max_s > 0 && ++total >= g_max_s) {
+			_dispatch_verif_pre = NULL; _dispatch_verif_post = NULL; _dispatch_verif_probe = NULL;
+			dump_with("Hang", -2);
+			fprintf(stderr, "VRT: still running after %d s (livelock)\n", total);
+			_exit(71);
+		}
 		uint64_t cur = atomic_load(&g_progress);
 		if (cur != last) { last = cur; idle = 0; continue; }
 		if (++idle >= g_hang_s) {
@@ -360,6 +377,10 @@ void vrt_init(const char *outpath, uint64_t seed, int perturb_level)
 	sa.sa_handler = on_signal;
 	sigaction(SIGSEGV, &sa, NULL); sigaction(SIGILL, &sa, NULL); sigaction(SIGABRT, &sa, NULL);
 	sigaction(SIGBUS, &sa, NULL); sigaction(SIGTRAP, &sa, NULL); sigaction(SIGFPE, &sa, NULL);
+	struct sigaction st;
+	memset(&st, 0, sizeof(st));
+	st.sa_handler = on_term;       /* killed by an outer timeout: keep the evidence */
+	sigaction(SIGTERM, &st, NULL);
 	pthread_t wd;
 	pthread_create(&wd, NULL, watchdog, NULL);
 	pthread_detach(wd);
